@@ -592,10 +592,10 @@ class XPathContext:
                 descendants.update(root.iter_descendants())
             position = root.position
 
-            while isinstance(root.parent, ElementNode) and root is not self.root:
-                root = root.parent
+            while root.parent is not None and root is not self.root:
+                root = root.parent  # up to the document, that can have other children
 
-            if isinstance(root, ElementNode):
+            if isinstance(root, (ElementNode, DocumentNode)):
                 for item in root.iter_descendants(with_self=False):
                     if position < item.position and item not in descendants:
                         self.item = item
